@@ -146,41 +146,68 @@ def _blur(names, known):
     return sorted(out)
 
 
+def _ref_names(names, known):
+    """referrer names reduced to what can be compared across a re-organisation: the plain function name, and '?' for every
+    private name the table does not know (a renamed or new private function)"""
+    out = set()
+    for n in names:
+        base = n.split(".")[-1]
+        out.add(base if (not is_private(base) or base in known) else "?")
+    return out
+
+
 def plan_renames(modname, tree, table=None):
-    """[(owner, current name, table name)] for module `modname`"""
+    """[(owner in the table, owner now, current name, table name)] for module `modname`.
+    A listed private function that is missing from its owner is matched with a private function of the same module that the
+    table does not list: in the same owner (same kind and number of parameters), or - a method that never needed its
+    instance moved out of the class, or the reverse - at module level / in a class with the parameter count adjusted for
+    self / cls.  The match is scored by what the body is made of (0.65) and by who refers to it (0.35); it is accepted when the
+    score is at least 0.45 and clearly better (0.12) than that of the next candidate, and when no other missing name claims
+    the same function."""
     table = load_table() if table is None else table
     want = table.get(modname)
     if not want:
         return []
     have = profiles(tree)
-    plan = []
+    listed = set(n for tab in want.values() for n in tab)
+    present = set(n for tab in have.values() for n in tab)
+    known_now = listed & present
+    fresh = [(o, n) for o, tab in sorted(have.items()) for n in sorted(tab) if n not in listed]
+    claims = {}
     for owner, wtab in sorted(want.items()):
         htab = have.get(owner, {})
-        missing = [n for n in sorted(wtab) if n not in htab]
-        if not missing:
-            continue
-        fresh = [n for n in sorted(htab) if n not in wtab]
-        known_now = set(htab) & set(wtab)
-        claims = {}
-        for m in missing:
+        for m in sorted(wtab):
+            if m in htab or m in present and owner != "" and m in have.get("", {}):
+                continue
+            if any(m in tab for tab in have.values()) and m in htab:
+                continue
             w = wtab[m]
-            # referrers of the table entry that are gone now are "some private function" as well
-            w_refs = sorted(r if (not is_private(r.split(".")[-1]) or r.split(".")[-1] in known_now) else "?" for r in w["referrers"])
-            cands = []
-            for y in fresh:
-                h = htab[y]
-                if h["kind"] != w["kind"] or h["arity"] != w["arity"]:
+            w_refs = _ref_names(w["referrers"], known_now)
+            scored = []
+            for o, y in fresh:
+                h = have[o][y]
+                if o == owner:
+                    ok = h["kind"] == w["kind"] and h["arity"] == w["arity"]
+                elif o == "" and owner != "":
+                    # moved out of the class
+                    drop = 0 if w["kind"] == "static" else 1
+                    ok = h["kind"] == "function" and h["arity"] == w["arity"] - drop
+                elif owner == "" and o != "":
+                    add = 0 if h["kind"] == "static" else 1
+                    ok = h["arity"] == w["arity"] + add
+                else:
+                    ok = False
+                if not ok:
                     continue
-                if _blur(h["referrers"], known_now) != w_refs:
-                    continue
-                cands.append(y)
-            # the body must still look like the listed one; among several candidates the clearly most similar one wins
-            scored = sorted(((similarity(htab[y].get("uses", ()), w.get("uses", ())), y) for y in cands), reverse=True)
-            if scored and scored[0][0] >= 0.3 and (len(scored) == 1 or scored[0][0] - scored[1][0] >= 0.15):
-                claims.setdefault(scored[0][1], []).append(m)
-        for y, ms in sorted(claims.items()):
-            if len(ms) == 1:
-                plan.append((owner, y, ms[0]))
+                score = 0.65 * similarity(h.get("uses", ()), w.get("uses", ())) + 0.35 * similarity(_ref_names(h["referrers"], known_now), w_refs)
+                scored.append((score, o, y))
+            scored.sort(reverse=True)
+            if scored and scored[0][0] >= 0.45 and (len(scored) == 1 or scored[0][0] - scored[1][0] >= 0.12):
+                claims.setdefault((scored[0][1], scored[0][2]), []).append((owner, m))
+    plan = []
+    for (o, y), ms in sorted(claims.items()):
+        if len(ms) == 1:
+            plan.append((ms[0][0], o, y, ms[0][1]))
     return plan
 
 
@@ -207,9 +234,8 @@ class _Rename(ast.NodeTransformer):
 
 
 def restore_names(modname, tree, table=None):
-    """apply plan_renames to the tree (in place); returns the list of (owner, current, restored) that were applied.
-    A plan is applied only when the restored name does not occur anywhere in the module yet and the current name is not
-    claimed by two owners."""
+    """apply plan_renames to the tree (in place); returns the list of (table owner, owner now, current name, restored name).
+    A renaming is applied only when the restored name does not occur anywhere in the module yet."""
     plan = plan_renames(modname, tree, table)
     if not plan:
         return []
@@ -223,11 +249,11 @@ def restore_names(modname, tree, table=None):
             used.add(n.name)
     mapping = {}
     applied = []
-    for owner, cur, old in plan:
+    for owner, now, cur, old in plan:
         if old in used or cur in mapping:
             continue
         mapping[cur] = old
-        applied.append((owner, cur, old))
+        applied.append((owner, now, cur, old))
     if mapping:
         _Rename(mapping).visit(tree)
     return applied
